@@ -455,14 +455,15 @@ Theorem diff_enum_uses_consistent c gs d :
   let hs := struct_headers c gs st in
   let U := diff_enum_params dedup_ty dedup_lt d in
   let E := diff_enum_name (attrs_expose (s_attrs st)) (d_name d) in
+  let TL := target_lifetime (filter (fun f => negb (attrs_skip (f_attrs f))) (s_fields st)) in
   (exists pre w, nth_error hs 0 = Some (pre ++ [TId "pub"; TId "enum"; TId E] ++ angle (map ident_with_const U) ++ TId "where" :: w)) /\
-  (exists pre w, nth_error hs 1 = Some (pre ++ [TId "pub"; TId "enum"; TId (E ++ "Ref")] ++ angle (lt_target :: map ident_with_const U) ++ TId "where" :: w)) /\
-  (exists w, nth_error hs 2 = Some (TId "impl" :: angle (lt_target :: map ident_with_const U) ++ [TId "Into"; TP PLt; TId E] ++ angle (map ident_only U) ++
-                                      [TP PGt; TId "for"; TId (E ++ "Ref")] ++ angle (lt_target :: map ident_only U) ++ TId "where" :: w)) /\
+  (exists pre w, nth_error hs 1 = Some (pre ++ [TId "pub"; TId "enum"; TId (E ++ "Ref")] ++ angle (TL ++ map ident_with_const U) ++ TId "where" :: w)) /\
+  (exists w, nth_error hs 2 = Some (TId "impl" :: angle (TL ++ map ident_with_const U) ++ [TId "Into"; TP PLt; TId E] ++ angle (map ident_only U) ++
+                                      [TP PGt; TId "for"; TId (E ++ "Ref")] ++ angle (TL ++ map ident_only U) ++ TId "where" :: w)) /\
   nth_error hs 4 = Some ([TId "type"; TId "Diff"; TP PEq; TId E] ++ angle (map ident_only U)) /\
-  (exists w, nth_error hs 5 = Some ([TId "type"; TId "DiffRef"; TP PLt] ++ lt_target ++ [TP PGt; TP PEq; TId (E ++ "Ref")] ++ angle (lt_target :: map ident_only U) ++ TId "where" :: w)).
+  (exists w, nth_error hs 5 = Some ([TId "type"; TId "DiffRef"; TP PLt] ++ lt_target ++ [TP PGt; TP PEq; TId (E ++ "Ref")] ++ angle (TL ++ map ident_only U) ++ TId "where" :: w)).
 Proof.
-  intros st hs U E. set (used := used_generics (s_generics st) (map f_ty (filter (fun f => negb (attrs_skip (f_attrs f))) (s_fields st)))).
+  intros st hs U E TL. set (used := used_generics (s_generics st) (map f_ty (filter (fun f => negb (attrs_skip (f_attrs f))) (s_fields st)))).
   split; [|split; [|split; [|split]]].
   - exists (allow_attr ++ attr_tt "derive" (sep_comma (owned_derives c)) ++ serde_bound c used). eexists. unfold hs, struct_headers. cbn [nth_error app].
     rewrite <- !app_assoc. reflexivity.
